@@ -6,6 +6,7 @@ import QuantemModel.Lemmas.RadonLists
 import QuantemModel.Lemmas.RadonPadSpec
 import QuantemModel.Lemmas.RadonFilterSk
 import QuantemModel.Lemmas.Radon180
+import QuantemModel.Lemmas.RadonGeometry
 /-!
 C07 — the torch Radon transform / filtered back-projection (Model/Radon.lean: `radonTorch*`,
 `fourierFilterTorch`, `iradonTorch`) is the same real function as the scikit-image reference
@@ -438,5 +439,48 @@ theorem radon_180_even_flip_counterexample :
     simp [masked, inDisc]
   · rw [proj0_colsum pin 2 (by norm_num), hr]
     simp [masked, inDisc, pin]
+
+/-! ## 6. Geometry of the reconstruction (circle on and off) -/
+
+/-- **output_size_spec**: the default output size is `N` in circle mode and, with `circle=False`,
+the integer square root of `N²/2`: `2 m² ≤ N² < 2 (m+1)²`, for every `N`. -/
+theorem output_size_spec (N : Nat) :
+    outputSize (R := ℝ) N true = N ∧
+    2 * (outputSize (R := ℝ) N false) ^ 2 ≤ N ^ 2 ∧ N ^ 2 < 2 * (outputSize (R := ℝ) N false + 1) ^ 2 :=
+  ⟨outputSize_circle N, outputSize_nocircle_spec N⟩
+
+/-- **diag_size_spec**: the circle-mode detector padding target `D = ceil(sqrt(2)·N)` satisfies
+`D - 1 < sqrt(2)·N ≤ D` and `N ≤ D`, for every `N`. -/
+theorem diag_size_spec (N : Nat) :
+    ((diagSize (R := ℝ) N : ℕ) : ℝ) - 1 < Real.sqrt 2 * N ∧ Real.sqrt 2 * N ≤ (diagSize (R := ℝ) N : ℕ) ∧
+      N ≤ diagSize (R := ℝ) N :=
+  diagSize_spec N
+
+/-- **circle_to_square_alignment**: the padded row has length `D`, detector bin `i` of the sinogram
+sits at bin `i + (D//2 - N//2)` (the rotation axis `N//2` lands on `D//2`), every other bin is 0. -/
+theorem circle_to_square_alignment (D N : Nat) (row : List ℝ) (hr : row.length = N) (hD : N ≤ D) (j : Nat) :
+    (circleToSquare D N row).length = D ∧
+    (circleToSquare D N row).getD j 0
+      = if D / 2 - N / 2 ≤ j ∧ j < D / 2 - N / 2 + N then row.getD (j - (D / 2 - N / 2)) 0 else 0 :=
+  ⟨circleToSquare_length_eq D N row hr hD, circleToSquare_getD D N row hr j⟩
+
+example : (circleToSquare 5 3 [7, 8, 9] : List ℝ).getD (3 / 2 + (5 / 2 - 3 / 2)) 0 = ([7, 8, 9] : List ℝ).getD (3 / 2) 0 := by
+  rw [(circle_to_square_alignment 5 3 [7, 8, 9] rfl (by norm_num) _).2]
+  norm_num
+
+/-- **backprojection_axis**: the rotation-axis pixel `(out//2, out//2)` reads detector coordinate 0
+(bin `D//2`) at every angle. -/
+theorem backprojection_axis (radius : Nat) (θ : ℝ) : detT radius θ radius radius = 0 :=
+  detT_centre radius θ
+
+/-- **backprojection_reads_inside** — where the back-projection reads the detector, for every
+angle: in circle mode a pixel inside the reconstruction circle stays within `radius = N//2` of
+the axis (inside the diagonal padding); with `circle=False` every pixel of the
+`floor(sqrt(N²/2))`² output stays within `N/2` of the axis. -/
+theorem backprojection_reads_inside (N : Nat) (θ : ℝ) (r c : Nat) :
+    (outsideCircle (N / 2) r c = false → (detT (N / 2) θ r c) ^ 2 ≤ ((N / 2 : Nat) : ℝ) ^ 2) ∧
+    (r < outputSize (R := ℝ) N false → c < outputSize (R := ℝ) N false →
+      (detT (outputSize (R := ℝ) N false / 2) θ r c) ^ 2 ≤ ((N : ℝ) / 2) ^ 2) :=
+  ⟨detT_circle_bound (N / 2) θ r c, detT_nocircle_bound N θ r c⟩
 
 end QuantemModel.Props.C07
